@@ -37,7 +37,8 @@ def gen_cases(ctx):
             else:
                 base = scalar_stream(r, n, r.choice(["walk", "ties", "periodic", "pgrid", "uniform", "segments"]), p=p, positive=True)
                 mk = lambda s_, x, f, d: ("n", s_, x * f + d)
-            factors = [2.0 ** k for k in (r.sample(ks, 2) if not ctx.thorough else r.sample(ks, 12))] + [r.choice([3.0, 0.1, 1e-5, 12345.678])]
+            # both extreme units always (absolute thresholds hide there), one mild power of two, one non-power of two
+            factors = [2.0 ** k for k in ([-40, 40, r.choice([-1, 1])] if not ctx.thorough else [-40, 40] + r.sample(ks, 10))] + [r.choice([3.0, 0.1, 1e-5, 12345.678])]
             for fi, f in enumerate(factors):
                 # shifts: of the order of the price level, and (last factor) 2^20 or 2^30 times it, where a shift-invariant
                 # statistic must still be unchanged within the rounding of its (now large) inputs
